@@ -152,6 +152,7 @@ def _setup(ctx, *mods):
     if ctx.sym:
         for m in mods:
             ctx.patch(m, "np", npfacade.FACADE)
+        ctx.patch(pd.Series, "to_numpy", npfacade.series_to_numpy_keeping_objects(pd.Series.to_numpy))
 
 
 def run(ctx, case):
@@ -203,6 +204,12 @@ def _pram_curve(ctx, case):
     ctx.claim(_close_log(_scalar(curve.calc_P_RAM(1e3)), Z), "pram.knee_1e3", "P(1e3)")
     ctx.claim(_close_log(_scalar(curve.calc_N(Z)), 1e3), "pram.knee_1e3", "N(Z)")
     ctx.claim(_close_log(_scalar(curve.calc_P_RAM(life_limit)), D), "pram.endurance", "P at the knee")
+    # whole cycle numbers given as integers (scalar and list): the same curve (dtype effects show in the witness replay)
+    if bool(2001 < life_limit):
+        p_int = _scalar(curve.calc_P_RAM(2000))
+        ctx.claim(_close_log(_scalar(curve.calc_N(p_int)), 2000.0), "pram.inverse", ("integer cycle number", p_int))
+        p_arr = list(np.asarray(curve.calc_P_RAM([2000, 2001]), dtype=object).reshape(-1))
+        ctx.claim(len(p_arr) == 2 and bool(_lg(p_arr[1]) < _lg(p_arr[0])), "pram.decreasing", ("integer cycle numbers", p_arr))
     return {"N": N, "Pn": Pn, "life_limit": _scalar(life_limit)}
 
 
@@ -312,6 +319,8 @@ def _accumulate(ctx, case):
             # decreases in x and equals 1 at x = 1.  It is represented as 1/t with a fresh t > 0 (registered as
             # an auxiliary input so that counterexamples can be realised, see realise()), which keeps the
             # damages c/N = c*t/1000 linear.
+            if isinstance(b, SymReal) and bool(b == 0):
+                return np.float64("inf")       # 0 ** (negative exponent), as numpy: no damage from a hysteresis with P_RAM = 0
             key = (repr(b), repr(e))
             if key not in cache:
                 t = ctx.real("aux:t%d" % len(cache))
@@ -335,7 +344,7 @@ def _accumulate(ctx, case):
     P = [ctx.real("P%d" % i) for i in range(n)]
     Z, Dv = ctx.real("Z"), ctx.real("D")
     for p in P:
-        ctx.assume(p > 0)
+        ctx.assume(p >= 0)          # P_RAM = 0 (a hysteresis whose damage parameter is defined as zero) is part of the tables
     ctx.assume(sym_and(Z > Dv, Dv > 0))
     ctx.hint(sym_and(Z == 8, Dv == 1, *[sym_and(p <= 16, p >= 0.5) for p in P]))
     c = CONST.all_constants["Steel"]
@@ -349,7 +358,8 @@ def _accumulate(ctx, case):
     # literal accumulation with the per-hysteresis damages the calculator itself reports
     D = list(calc.collective["D"])
     Ns = list(calc.collective["N"])
-    ctx.claim(sym_and(*[ctx.close(d * nn, 1.0 if cl else 0.5) for d, nn, cl in zip(D, Ns, closed)]), "accumulation.n_times", "D = 1/N resp. 0.5/N")
+    ctx.claim(sym_and(*[(eq_struct(d, 0.0) if ctx.sym else d == 0.0) if _isinf(nn) else ctx.close(d * nn, 1.0 if cl else 0.5)
+                        for d, nn, cl in zip(D, Ns, closed)]), "accumulation.n_times", "D = 1/N resp. 0.5/N (0 for N = inf)")
     total, first_fail = 0, None
     for i, d in enumerate(D):
         total = total + d
@@ -362,7 +372,7 @@ def _accumulate(ctx, case):
         ctx.claim(ctx.close(n_cyc, float(first_fail)) if first_fail else eq_struct(n_cyc, 0), "accumulation.n_cycles", (n_cyc, first_fail))
     else:
         # D1 + x * D2 = 1 after the first pass; the sequence is applied x + 1 times
-        x = (1 - D1) / D2
+        x = float("inf") if (not ctx.sym and float(D2) == 0.0) else (1 - D1) / D2       # no damage per repetition: never
         ctx.claim(ctx.close(n_times, x + 1), "accumulation.n_times", (n_times, x))
         ctx.claim(ctx.close(n_cyc, (x + 1) * n2), "accumulation.n_cycles", (n_cyc, x))
     pmax2 = None
